@@ -24,6 +24,7 @@ type hCfg struct {
 	PChoose      int  // percent of uplink PDRs with CHOOSE F-TEID
 	CreateByModUP4 bool // (C04 only) histories with Create PDR by modification on UP4: leftovers of a rejected one are one recorded finding
 	KeyChangeUP4 bool // (C04 only) histories with key-changing Update PDRs on UP4: mismatches after one are one recorded finding
+	ExtraQER     bool // some sessions carry a QER that no PDR references; the mod "rmqer-extra" removes it (no PDR is removed with it)
 	ShufflePDI   bool // the IEs inside each PDI are sent in a random order
 	PChooseDL    int  // percent of downlink (core-side) PDRs that also carry a CHOOSE F-TEID (N9-style); response checks only
 	PAlloc       int  // percent of sessions asking for UE IP allocation (agent must have it enabled)
@@ -272,6 +273,14 @@ func (h *hRunner) genSession(assoc int) (*vEstSpec, *mSession, map[uint16]*mFlow
 		}
 		est.FARs = append(est.FARs, fu, fd)
 		ms.FARs = append(ms.FARs, &mFAR{fu}, &mFAR{fd})
+	}
+	if c.ExtraQER && rng.Intn(3) == 0 {
+		// a QER that no PDR references (small rate, first in the list: it never qualifies as the session-wide limiter)
+		x := vQERSpec{ID: 90, HasQFI: true, QFI: 9, HasMBR: true, MBRUL: 1, MBRDL: 1}
+		if len(c.QFIs) > 0 {
+			x.QFI = c.QFIs[0]
+		}
+		est.QERs = append([]vQERSpec{x}, est.QERs...)
 	}
 	for _, q := range est.QERs {
 		ms.QERs = append(ms.QERs, &mQER{q})
@@ -586,6 +595,11 @@ func (h *hRunner) genMod(a int, s *mSession) *hOp {
 		if s.qer(uint32(10+k)) != nil {
 			mod.RmQER = []uint32{uint32(10 + k)}
 		}
+	case "rmqer-extra":
+		if s.qer(90) == nil {
+			return h.genModFallback(a, s)
+		}
+		mod.RmQER = []uint32{90}
 	case "cpseid":
 		v := uint64(0x77000000) + uint64(rng.Intn(1<<20))
 		if c.SEIDs != nil {
